@@ -987,7 +987,32 @@ func distinctObjects(a, b ssa.Value) bool {
 	if a == b {
 		return false
 	}
+	// field/element paths rooted in different local variables, or in a local and a non-local
+	ra, rb := addrRoot(a), addrRoot(b)
+	if ra != rb {
+		_, la := ra.(*ssa.Alloc)
+		_, lb := rb.(*ssa.Alloc)
+		if la && lb {
+			return true
+		}
+		if (la || lb) && (ra != a || rb != b) {
+			return true
+		}
+	}
 	return fresh(a) && (named(b) || fresh(b)) || fresh(b) && named(a)
+}
+
+func addrRoot(v ssa.Value) ssa.Value {
+	for {
+		switch x := v.(type) {
+		case *ssa.FieldAddr:
+			v = x.X
+		case *ssa.IndexAddr:
+			v = x.X
+		default:
+			return v
+		}
+	}
 }
 
 // compositeLiteral: local struct with no whole-variable store whose fields are each assigned at most once:
